@@ -510,10 +510,11 @@ Definition to_int_arg (pol : upolicy) (v : val) : res Z :=
 Fixpoint insert_by {A} (lt : A -> A -> bool) (x : A) (l : list A) : list A :=
   match l with
   | [] => [x]
-  | y :: t => if lt x y then x :: l else y :: insert_by lt x t
+  | y :: t => if lt y x then y :: insert_by lt x t else x :: l
   end.
-(** stable insertion sort: fold from the right, inserting before the first
-    strictly greater element *)
+(** stable insertion sort ([sorted] is stable): fold from the right, inserting
+    an element before the first one that is not smaller, so equal elements
+    ([True] and [1]) keep their order *)
 Definition sort_by {A} (lt : A -> A -> bool) (l : list A) : list A :=
   fold_right (insert_by lt) [] l.
 
